@@ -27,20 +27,20 @@ CHECKS.update({
  "C05": dict(
    text="Theorems: after any successful real run the identical copy/template/file task, run on the world it left, returns ok with the action log untouched (so no write, chmod, create or unlink and hence no timestamp change); pacman has nothing left to install/remove (outside K19); a pass over tasks that are stable in the reached world is a no-op. "
         "Tie: every product case applied twice and random sequences applied twice on the real file system with mtime/ctime snapshots; mirror must agree step by step.",
-   note=NOTE_COMMON + "Sequence convergence is proved only from per-task stability in the final world; that a pass makes every task stable (non-interference of tasks on distinct paths) is what the sequence runs test.",
+   note=NOTE_COMMON + "Sequences: Frame.v proves that a task's outcome depends only on the nodes at the prefixes of its target and source (no symbolic link among them); Sequences.v proves that the second pass over ANY task list is a no-op reported ok whenever the first pass meets the decidable condition noninterf_b (every task succeeds and the rest of the pass leaves what it reads untouched) - a sequence whose tasks undo each other genuinely does not converge (seq_bad). The oracle evaluates noninterf_b on every generated sequence; a sequence is judged exactly when it holds.",
    technique="Coq proof (idempotence via declared-state fixed point) over a mirror model + differential correspondence with timestamp snapshots",
    design="5/C05"),
  "C06": dict(
    text="Theorems: whenever the check-mode run and the real run of the copy/template/file mirror both succeed they report the same changed flag (outside K8), check-mode ok implies the real run performs no action; the pacman mirror reports identical changed/installed/removed/upgraded in both modes (after the fix of K10). "
         "Tie: each product case is run twice on identical sandboxes (check vs real) against rash_core and the mirror.",
-   note=NOTE_COMMON + "tmpfile mode is a model parameter (all values); runs where exactly one of the two fails are counted, not judged.",
+   note=NOTE_COMMON + "Hypothesis tmp_like_create (the anonymous file check mode opens gets the creation mode) is probed per umask and checked by the run. A run where check mode reports a status and the real run FAILS is a misprediction too: known (K28) exactly where the mirror of the pinned code says the same, a violation otherwise. pacman: K24 (check mode cannot refresh). Named-pipe destinations are judged on the implementation alone (Fs.v has no such node).",
    technique="Coq proof (check/real decision equivalence) over a mirror model + paired differential runs",
    design="5/C06"),
 })
 NOTE_DOC = (NOTE_COMMON + "Tail.v is a MIRROR of the last stage of docopt::parse (word classification, `+` propagation, seeding, first matching usage in sorted order, per-word binding, merge_json, help check), fed through the rash_verif hook with the normalised argv, the sorted expanded usages and the option descriptors the code itself computed; on ~6000 sampled pairs per C07 run its JSON must equal the implementation's exactly. "
-            "Usage.v is a REFERENCE model written from rash_book/src/syntax.md and parser.md, not a mirror of the regex-rewriting parser (parse_help/parse_usage/expand_usages/extend_usages are not modelled): "
-            "the theorems certify the oracle; the code is tied to it only by the bounded sweep (usage sections of 1-3 elements, 1-2 lines, fixed options section; argv length <= 4/5). "
-            "Usage-level classes K13-* and argv-level classes K12/K20 are suppressed; inside them nothing is checked. ")
+            "Usage.v is a REFERENCE model written from rash_book/src/syntax.md and parser.md, not a mirror of the regex-rewriting parser (parse_usage/parse_doc/expand_usages/extend_usages are not modelled; parse_help is, HelpDoc.v): "
+            "the theorems certify the oracle; the code is tied to it by the bounded sweep (usage sections of 1-3 elements, 1-2 lines; argv length <= 4/5) plus targeted families (option names sharing a prefix, long repeated groups with options, [options] beside explicit options, defaults followed by text, values containing `=`; three option tables). "
+            "Known docopt findings (usage-level classes K13-*, argv-level K12, result-level K20) are delimited by the FROZEN version of the module on which they were recorded (harness/src/pinned_docopt): a failing pair inside a class is that finding only if the frozen version fails it identically; any other wrong outcome is a new violation. ")
 CHECKS.update({
  "C07": dict(
    text="Theorems: the executable reference matcher accepts with bindings b iff the inductive relation Matches (documented language) holds (soundness and completeness, by induction on pattern/derivation, no bound on pattern or argv size); every derivation accounts for every token exactly once and in order; the rearrangement check is sound; on the tail mirror a matching usage binds every argument once, positionals verbatim. "
@@ -75,7 +75,8 @@ CHECKS.update({
    technique="Coq proof over an engine mirror (store lemmas) + differential history runs", design="5/C02"),
  "C11": dict(
    text="Theorems over the mirror of main: rejected arguments -> no event, non-zero exit; help -> only the help text, exit 0; a file with an invalid task at any position -> no event at all (parse_file validates the whole file first). "
-        "Tie: scripts with an invalid task of each kind at every position, non-sequence and syntactically broken files, rejected / help / valid argument vectors, on the real binary (marker log, stdout, exit status).",
+        "HelpDoc.v mirrors docopt::parse_help: a documentation block written the documented way is printed verbatim followed by the two note lines, and nothing after the first line without `#` (the tasks) reaches the help text. "
+        "Tie: scripts with an invalid task of each kind (unknown string key, non-string keys, internal field names, no module, two modules, non-mapping, null, sequence) at every position, non-sequence and syntactically broken files, rejected / help / valid argument vectors, on the real binary (marker log, stdout, exit status); the printed help text must equal the mirror's output exactly, also for blocks written in undocumented ways.",
    note=NOTE_ENG + "docopt's decision itself is an input of the model (C07-C10 cover it); clap's handling of rash's own options is outside the property.",
    technique="Coq proof over a mirror of main's control flow + fault placement runs on the real binary", design="5/C11"),
  "C17": dict(
@@ -97,14 +98,14 @@ CHECKS.update({
    note=NOTE_COMMON + "minijinja and serde_yaml are NOT modelled: they are Section variables; the three laws are the trusted statements about them and are exactly what the run validates on the generated strings. Class predicates (plain_string, has_open) are evaluated by the extracted Coq functions.",
    technique="Coq proof over the render pipelines with the template engine as an abstract oracle + byte-exact differential probes on the real binary", design="5/C12"),
  "C14": dict(
-   text="PARTIAL (the kernel's execve/setuid contract cannot be modelled): theorems on the mirror of exec_transferring_pid - argv form passes program and every argument exactly as given, the cmd form's words are non-empty and whitespace-free, after a successful transfer no later step runs, a failing exec is an error. "
-        "Tie: the real binary execs a helper that records pid, argv, cwd, -e environment, uid/gid and exits with a chosen status (0-255); compared with the Popen PID, the given arguments, chdir, nobody's ids, the wait status and the marker log.",
+   text="PARTIAL (the kernel's execve/setuid contract cannot be modelled): theorems on the mirror of exec_transferring_pid - argv form passes program and every argument exactly as given, the cmd form's words are non-empty and whitespace-free, after a successful transfer no later step runs, a failing exec is an error; and on Become.v (mirror of the become branch of exec_module: user lookup by name then by u32 number, same-uid shortcut): under become a transfer_pid command does not fork - the exec'ing process is the main one, with the uid and primary gid of the looked-up passwd entry. "
+        "Tie: the real binary execs a helper that records pid, argv, cwd, the WHOLE environment, uid/gid and exits with a chosen status (0-255); compared with the Popen PID, the given arguments, chdir, the environment rash was started with plus the -e pairs, the credentials Become.v predicts on this machine's passwd database (names, numbers, +N, 00N, unknown users must fail without executing), the wait status and the marker log. K32 (credentials dropped before a failing exec) is a known finding with a Coq witness.",
    note=NOTE_COMMON + "Trusted: execve keeps the PID, setgid/setuid drop privileges (kernel); supplementary groups out of scope.",
    technique="Coq proof over the exec-request mirror + process-level observation of the real exec", design="5/C14"),
  "C15": dict(
-   text="PARTIAL (fork, ipc-channel and waitpid are trusted): theorems on the value codec that carries the child's store to the parent - of_json (to_json v) = v for every value without an undefined inside (nested, unicode, numeric, boolean, none), hence the parent's store equals the child's; undefined does not survive (refuted). "
-        "Tie: programs of the C01/C02 generators run twice on the real binary, with and without become to nobody on every task: stdout, exit status, marker log, created files must be identical; uid inside/outside; K17 witness under a deadline.",
-   note=NOTE_COMMON + "The continuation-duplicating fork model of DESIGN section 5/C15 was not built: K17 is recorded with its replay, not proved on a model.",
+   text="PARTIAL (fork, ipc-channel and waitpid are trusted): theorems on the value codec that carries the child's store to the parent - of_json (to_json v) = v for every value without an undefined inside (nested, unicode, numeric, boolean, none), hence the parent's store equals the child's; undefined does not survive (refuted); on Become.v: the module runs with uid AND primary gid of one passwd entry (named or numbered), the main process keeps its credentials unless it hands the process over (K32 refuted witness), no become => nothing differs, unknown user => the task fails, a task's own become_user wins over the command line. "
+        "Tie: programs of the C01/C02 generators run twice on the real binary, with and without become to nobody on every task: stdout, exit status, marker log, created files must be identical; id -u / id -g inside and after a become task for every become_user text and every combination of --become / -u with task keywords, against Become.v; a 2 MB store crossing the process boundary under a deadline (K31, fixed); the K17 witness (fixed).",
+   note=NOTE_COMMON + "fork, ipc-channel and waitpid are trusted; the continuation-duplicating fork model of the first draft was not built (K17 and K31 were found by runs and repaired in /repo).",
    technique="Coq proof of the store codec round trip + paired become/plain runs of the real binary", design="5/C15"),
 })
 CHECKS.update({
